@@ -92,6 +92,21 @@ CLAIMED = {
             "TLC checks for every word stream of up to 4 (5 in thorough) words over 15 word classes, with and without vector hints, that the expectation-stack decoder ends in value or error (never panic), allocates no more than the remaining input can fill and terminates within a linear number of steps; the three as-coded deviations each break it. The same word classes drive mutation of valid images of the registered constructors (truncations, every leading word replaced by each class), vector results with and without hints, containers with negative/huge counts and sizes, broken gzip bodies; the real decoder runs under recover, a watchdog, allocation accounting and a 12 GiB address-space limit.",
             "value-versus-error on corrupted input is not specified; gzip expansion exempt from the allocation bound; a child killed by the memory limit is attributed to the mutant announced last",
             "5 C15"),
+    "C14": ("model_checking",
+            "TLA+ spec (SchemaGen.tla: schema-building machine + translation Xlate) simulated with TLC; each generated schema is parsed by tlparser and generated/compiled by tlgen built from the tree, go/ast of the output compared with Xlate",
+            "TLC random behaviours of the schema-building machine (invariant SubsetOK keeps it inside the documented subset) produce schemas together with Xlate(schema), the model's statement of what must be declared (class, id, fields in order with Go kind, slice marker, tl tag, FlagIndex). Every schema is rendered as .tl text, must be parsed by tlparser.ParseSchema into exactly its definitions, generated twice and once over another schema's output (byte-identical), compiled with a stub Client, and its declarations must equal Xlate. Flag bits rotate over 0..31, feature coverage (enums, name clashes, shared bits, true flags, every primitive as scalar and vector, result kinds, >5 parameters) is enforced, and every schema under schemes/ must be accepted, reproducible and compile. Sampled (simulation), not exhaustive: the space of schemas is unbounded.",
+            "generated identifiers are matched by id, not by name; schema text rendering (incl. comments) is done by the harness; generated code is compiled and inspected, not run. schemes/e2e_*.tl and schemes/mtproto.tl are recorded as known findings",
+            "5 C14"),
+    "C18": ("model_checking",
+            "TLA+ spec (SRP.tla) model-checked with TLC over a toy group; SRPGen.tla generates term cases that a Go term interpreter evaluates for the 2048-bit group and compares with telegram.GetInputCheckPassword",
+            "TLC checks exhaustively in a 23-element group, with every a, b, password value, hash values and leading-zero classes of A, B and S, that the server accepts the right password, rejects another, and that invalid B values and the empty password are refused - and that dropping any fixed-width padding or the range check breaks it (sensitivity configs). The same definitions as terms (PH1/PH2, v, k, B, u, S, M1) are interpreted over Telegram's group and judge the answers of the real code for password classes x salt lengths x forced leading zeros (server secret by search, client secret through the guarded hook).",
+            "SHA-256, PBKDF2-HMAC-SHA512 and math/big trusted; forced corners use 64-bit secrets",
+            "5 C18"),
+    "C19": ("model_checking",
+            "TLA+ spec (Provenance.tla) evaluated by TLC on the RTA call graph extracted from the working tree; dynamic cross-check of its predictions on the real key exchange and SRP code",
+            "The specification states provenance as reachability over a labelled call graph: no math/rand or clock source below a secret-producing path of makeAuthKey / GetInputCheckPassword / NewMTProto, every secret producer reaches crypto/rand, reseeding harmless. TLC evaluates it on the graph extracted from the tree (callgraph -algo=rta with the verif tag), and must flag the recorded graph of the original tree. The predictions are cross-checked dynamically: secrets do not repeat after identical math/rand seeding, between exchanges, or between a failed attempt and its retry.",
+            "function-granular reachability over an extracted model, not a data-flow proof; a PRNG behind a function value in a third-party library is invisible",
+            "5 C19"),
 }
 
 NOT_YET = {}
